@@ -221,6 +221,7 @@ Proof.
   - apply (own_meta s); auto.
   - apply lim_start_own. apply (own_meta s); auto.
   - apply lim_stop_own. destruct (is_leader s sh); [apply (own_meta s); auto|exact H].
+  - apply lim_stop_own. destruct (is_leader s sh); [apply (own_meta s); auto|exact H].
   - apply leader_check_props; exact H.
   - apply handler_own. apply (own_meta s); auto.
   - apply handler_own. apply (own_meta s); auto.
@@ -241,6 +242,7 @@ Lemma step_meta s o : me (fst (step s o)) = me s /\ nshards (fst (step s o)) = n
 Proof.
   destruct o; simpl; try tauto.
   - destruct (lim_start_meta (set_leaders s (zset sh (me s) (leaders s))) sh) as (A & B & _). simpl in *. tauto.
+  - destruct (is_leader s sh); simpl; tauto.
   - destruct (is_leader s sh); simpl; tauto.
   - destruct (leader_check_props s) as (_ & A & B & _). tauto.
   - match goal with |- context [handler ?x ?y] => destruct (handler_meta x y) as (A & B & _) end. simpl in *; tauto.
@@ -363,6 +365,11 @@ Proof.
   - (* drop *)
     unfold drop_ok; simpl. destruct o; try reflexivity.
     + (* stop *)
+      simpl in ES. inversion ES; subst s'. simpl.
+      apply Bool.negb_true_iff. apply Bool.not_true_is_false. intros Hm.
+      apply zmem_In in Hm. apply in_map_iff in Hm. destruct Hm as (q & Hq1 & Hq2).
+      apply In_zdel in Hq2. destruct (is_leader s sh); simpl in Hq2; tauto.
+    + (* stop during an API outage *)
       simpl in ES. inversion ES; subst s'. simpl.
       apply Bool.negb_true_iff. apply Bool.not_true_is_false. intros Hm.
       apply zmem_In in Hm. apply in_map_iff in Hm. destruct Hm as (q & Hq1 & Hq2).
